@@ -76,7 +76,7 @@ def stream_run(rng, kind, nrows, B, batch, pause_at, depeof, width):
     return d, w, worst, maxpull
 
 
-def witness_ping(rng, B, batch, nrows, kind="text"):
+def witness_ping(rng, B, batch, nrows, kind="text", sql=b"SELECT a FROM t"):
     """while connection 1 streams from a source that never suspends, connection 2's PING is answered within batch+1 rows"""
     env = impl.Env(own_sleep=False)   # real asyncio.sleep(0): plain FIFO scheduling
     try:
@@ -97,9 +97,9 @@ def witness_ping(rng, B, batch, nrows, kind="text"):
             c.take(); c.feed(cl.frame(cl.handshake_response(user=b"u"), 1)); c.take()
         # start the long stream, then immediately a PING on the other connection, then count
         if kind == "text":
-            a.reader.feed_data(cl.frame(bytes([cl.COM_QUERY]) + b"SELECT a FROM t", 0))
+            a.reader.feed_data(cl.frame(bytes([cl.COM_QUERY]) + sql, 0))
         else:
-            a.feed(cl.frame(bytes([cl.COM_STMT_PREPARE]) + b"SELECT a FROM t", 0))
+            a.feed(cl.frame(bytes([cl.COM_STMT_PREPARE]) + sql, 0))
             sid = cl.split_raw(a.take())[0][1][1:5]
             cursor = 1 if kind == "fetch" else 0
             a.reader.feed_data(cl.frame(bytes([cl.COM_STMT_EXECUTE]) + sid + bytes([cursor]) + (1).to_bytes(4, "little"), 0))
@@ -173,13 +173,16 @@ def run(ctx: core.Ctx):
             disagreements.append(c)
     # fairness across connections with the real batch size
     at = 0
-    for kind in ("text", "binary", "fetch"):
-        n = witness_ping(rng, 32768, 10000, 35000, kind)
-        at = max(at, n)
-        ctx.evals += 1
-        if n > 10001 + 1:
-            witness = witness or dict(kind="starvation", protocol=kind,
-                                      problem=f"PING of another connection answered only after {n} rows of a non-suspending stream")
+    # (through the real Session: the statement passes the whole middleware chain - also with an optimizer hint, which makes
+    #  _set_var_middleware wrap the rest of the chain)
+    for sql in (b"SELECT a FROM t", b"SELECT /*+ SET_VAR(max_execution_time = 1000) */ a FROM t", b"SELECT a FROM t WHERE b = @@sql_mode"):
+        for kind in ("text", "binary", "fetch"):
+            n = witness_ping(rng, 32768, 10000, 35000, kind, sql)
+            at = max(at, n)
+            ctx.evals += 1
+            if n > 10001 + 1:
+                witness = witness or dict(kind="starvation", protocol=kind, sql=sql.decode(),
+                                          problem=f"PING of another connection answered only after {n} rows of a non-suspending stream")
     # inferred column types: the recorded open finding
     peek = inferred_peek_probe()
     ctx.evals += 1
